@@ -26,6 +26,8 @@ WHAT = {
     "C12:failed-handshake-leaves-stale-registry-entry": "after a failed handshake (no other user of the path) the process-wide buffer-manager table still holds an entry for the path",
     "C12:establishment-after-failed-handshake-has-no-mapped-memory": "a new establishment on the path of an earlier failed handshake reports success but the buffer memory is not mapped / does not carry data",
     "C12:establishment-after-failed-handshake-fails": "a new establishment on the path of an earlier failed handshake fails",
+    "C12:server-rejects-newer-client-instead-of-lower-common-version": "a client of a newer protocol generation (it announces 4, 5, ... in ExchangeProtoVersion and otherwise follows the exchange) is turned away by the server instead of being served with the lower common version",
+    "C12:client-rejects-newer-server-instead-of-lower-common-version": "a server of a newer protocol generation (it answers the version exchange with 4, 5, ...) makes the generation-3 client fail instead of settling on the lower common version",
     "C12:extract-metadata-panics": "extractShmMetadata panicked on a malformed body instead of returning an error",
     "C12:late-peer-after-timeout-leaks-mapping": "a peer that sends valid metadata after the server's InitializeTimeout: the initialiser goroutine, never cancelled, maps the shared memory after newSession returned the timeout error; nobody unmaps it",
     "C12:error-path-leaves-received-descriptor": "server received an SCM_RIGHTS message with the wrong number of descriptors: it reports an error and never closes the descriptor(s) it did receive",
@@ -43,7 +45,7 @@ def frame(f):
 
 
 def config(c):
-    return ("{| mt := %s; unix := %s; qpath := %s; bpath := %s; qobj := 11; bobj := 22 |}"
+    return ("{| mt := %s; unix := %s; qpath := %s; bpath := %s; qobj := 11; bobj := 22; cgen := c_maxSupportProtoVersion; sgen := c_maxSupportProtoVersion |}"
             % ("MMemfd" if c["mt"] == 1 else "MFile", "true" if c["unix"] else "false", zl(c["q"] or []), zl(c["b"] or [])))
 
 
@@ -65,6 +67,8 @@ def case_to_coq(c):
         return ("HPeer {| pc_client := %s; pc_cfg := %s; pc_script := %s; pc_close := %s; pc_late := %s; pc_files := %s; pc_obs_frames := %s; pc_obs_class := %d; pc_obs_ver := %d; pc_obs_mapped := %s |}"
                 % (b(c["client"]), config(c), core.coq_list([frame(f) for f in c["script"] or []]), b(c["close"]), b(c.get("late")),
                    core.coq_list(files), core.coq_list([frame(f) for f in c["frames"] or []]), c["class"], c["obs_ver"], b(c["mapped"])))
+    if k == "valid":
+        return "HValid {| vc_magic := %d; vc_ver := %d; vc_type := %d; vc_obs := %d |}" % (c["obs_ver"], c["ver"], c["ty"], c["class"])
     if k in ("pair", "xproc"):
         return ("HPair {| pp_cfg := %s; pp_sched := %d; pp_c_class := %d; pp_s_class := %d; pp_c_ver := %d; pp_s_ver := %d; pp_same := %s |}"
                 % (config(c), c.get("sched", 0), c["c_class"], c["s_class"], c["c_ver"], c["s_ver"], b(c["same"])))
@@ -76,7 +80,8 @@ MISMATCH = {1: "generateShmMetadata's bytes differ from the model's generate", 2
             13: "negotiated version of the real end differs from the model's", 14: "the real server mapped / did not map unlike the model",
             21: "client outcome differs from the model's run", 22: "server outcome differs from the model's run",
             23: "client version differs from the model's run", 24: "server version differs from the model's run",
-            25: "same-memory observation differs from the model's run"}
+            25: "same-memory observation differs from the model's run",
+            31: "checkEventValid's verdict on this magic / version byte / type differs from the model's header validity predicate"}
 
 
 def eval_cases(cases, tag):
@@ -166,6 +171,9 @@ def check(run):
         if c["kind"] == "codec":
             key = json.dumps([c["ver"], c["ty"], c["q"], c["b"], c["body"]])
             nontrivial = bool(c.get("feat")) or len(c["q"]) in (0, 255, 256, 65535) or len(c["b"]) in (0, 255, 256, 65535)
+        elif c["kind"] == "valid":
+            key = json.dumps(["valid", c["ver"], c["ty"], c["obs_ver"]])
+            nontrivial = c["ver"] in (0, 1, 2, 3, 4, 255) or c["class"] != 0
         else:
             key = json.dumps([c["kind"], c["name"]])
             nontrivial = True
